@@ -190,27 +190,41 @@ impl Agg {
 }
 
 pub struct Known {
+    /// exact class -> what
     pub open: BTreeMap<String, String>,
+    /// class prefix -> what
+    pub open_prefix: Vec<(String, String)>,
+}
+
+impl Known {
+    pub fn lookup(&self, class: &str) -> Option<&String> {
+        self.open.get(class).or_else(|| self.open_prefix.iter().find(|(p, _)| class.starts_with(p.as_str())).map(|(_, w)| w))
+    }
 }
 
 pub fn load_known(prop_id: &str) -> Known {
     let mut open = BTreeMap::new();
+    let mut open_prefix = vec![];
     if let Ok(s) = std::fs::read_to_string(format!("{}/known_findings.json", VERIF_DIR)) {
         if let Ok(v) = serde_json::from_str::<Value>(&s) {
             if let Some(a) = v["findings"].as_array() {
                 for f in a {
                     if f["property"].as_str() == Some(prop_id) && f["status"].as_str() == Some("open")
                     {
-                        open.insert(
-                            f["class"].as_str().unwrap_or("").to_string(),
-                            f["what"].as_str().unwrap_or("").to_string(),
-                        );
+                        let what = f["what"].as_str().unwrap_or("").to_string();
+                        if let Some(p) = f["class_prefix"].as_str() {
+                            if !p.is_empty() {
+                                open_prefix.push((p.to_string(), what));
+                            }
+                        } else if let Some(c) = f["class"].as_str() {
+                            open.insert(c.to_string(), what);
+                        }
                     }
                 }
             }
         }
     }
-    Known { open }
+    Known { open, open_prefix }
 }
 
 pub fn run_check(prop: &dyn Prop, tier: Tier, seed: u64, triage: bool) -> i32 {
@@ -383,7 +397,7 @@ fn finish(
     let mut known_hit = Vec::new();
     let mut viol_list = Vec::new();
     for (class, details) in &by_class {
-        if let Some(what) = known.open.get(class) {
+        if let Some(what) = known.lookup(class) {
             println!("KNOWN-FINDING: property={} {} -- {} ({} witnesses)", id, class, what, details.len());
             known_hit.push(json!({"class": class, "witnesses": details.len()}));
             continue;
